@@ -180,10 +180,15 @@ def check_interpolation(prog: Program, rep, ev: Evaluator, rule: str) -> None:
     st = State()
     out = ev.new_list(st, [])
     st.env.update({loop.target.id: S('xi'), xpn: SymObj('xp'), ypn: SymObj('yp'), res_names[0]: out})
+    # loop-carried locals defined before the loop are unknowns here
+    for n in ast.walk(loop):
+        if isinstance(n, ast.Name) and n.id not in st.env and n.id not in ('len', 'range', 'enumerate', 'min', 'max', 'abs'):
+            st.env[n.id] = S(f'${n.id}')
     try:
         tree = ev.exec_block(loop.body, st, Ctx(dm, li, None, 0))
     except Undecided as exc:
-        raise AnalysisError(f'linear_interpolation body: {exc}') from exc
+        rep.undecided(rule, li.where, 'linear_interpolation', f'shape not readable: {exc}')
+        return
     xi = A.sym('xi')
     lo_clamp = hi_clamp = False
     problems = []
@@ -254,10 +259,13 @@ def check_interpolation(prog: Program, rep, ev: Evaluator, rule: str) -> None:
             elif br_lo or br_hi:
                 problems.append(f'inside the bracket [xp[m], xp[m+1]) the value is {val!r}, not the straight line through the '
                                 f'two bracketing points')
-    if not ok_line and not any('straight line' in p_ for p_ in problems):
-        problems.append('no bracketed straight-line interpolant found in the search loop')
     if problems:
         rep.fail(rule, dm.path, li.node.lineno, li.qualname, 'interpolant', '; '.join(sorted(set(problems))[:3]))
+    elif not ok_line:
+        # another search shape (a sweep, bisect, ...): whether it brackets every query is loop correctness: not decided
+        rep.ok(rule, li.where, 'x <= xp[0] -> yp[0]; x >= xp[-1] -> yp[-1]')
+        rep.undecided(rule, li.where, 'interior interpolant', 'no `xp[m] <= x < xp[m+1]`-guarded straight line recognised; the '
+                      'correctness of another search shape is not decided')
     else:
         rep.ok(rule, li.where, 'x <= xp[0] -> yp[0]; x >= xp[-1] -> yp[-1]')
         rep.ok(rule, li.where, 'xp[m] <= x < xp[m+1] -> yp[m] + (yp[m+1]-yp[m])/(xp[m+1]-xp[m]) (x - xp[m])')
